@@ -142,6 +142,7 @@ func main() {
 		writeKeys(*repo, filepath.Join(*genDir, "GeneratedKeys.v"))
 		writeDenom(*repo, filepath.Join(*genDir, "GeneratedDenom.v"))
 		writeKeeper(*repo, "streamonstore", "", filepath.Join(*genDir, "GeneratedStreamKeeperOnStore.v"))
+		writeKeeper(*repo, "enterpriseonstore", "", filepath.Join(*genDir, "GeneratedEnterpriseKeeperOnStore.v"))
 		writeKeeper(*repo, "wrkchainonstore", "", filepath.Join(*genDir, "GeneratedWrkchainKeeperOnStore.v"))
 		writeKeeper(*repo, "beacononstore", "", filepath.Join(*genDir, "GeneratedBeaconKeeperOnStore.v"))
 		for _, sp := range storeSpecs {
